@@ -27,6 +27,7 @@ B(kind, n, n2, declared, ops) == [kind |-> kind, n |-> n, n2 |-> n2, declared |-
 \* ("none" with declared > 0: no body, but the handler states the Content-Length itself -- the answer to a HEAD request)
 Bodies == {B("none", 0, 0, 0, << >>), B("none", 0, 0, 1234, << >>), B("none", 0, 0, 7, << >>)}
           \cup {B("bytes", n, 0, 0, << >>) : n \in Sizes}
+          \cup {B("resetbytes", n, 0, 0, << >>) : n \in {0, 1, 4097}}   \* Response.Reset() first, as AbortWithMsg / NotFound do
           \cup {B("append", n, 3, 0, << >>) : n \in Sizes}
           \cup {B("stream", n, 0, n, << >>) : n \in Sizes}          \* declared length = n
           \cup {B("stream", n, 0, -1, << >>) : n \in Sizes}         \* unknown length
